@@ -17,6 +17,14 @@ pub mod c18;
 use crate::runner::Prop;
 
 pub fn sweep_prop(id: &str) -> Option<Box<dyn Prop>> {
+    if id == "C12" {
+        // histories are sequences already
+        return Some(Box::new(crate::fsm::C12Histories::new()));
+    }
+    bare_prop(id).map(|p| Box::new(crate::runner::WithPairs::new(p)) as Box<dyn Prop>)
+}
+
+fn bare_prop(id: &str) -> Option<Box<dyn Prop>> {
     Some(match id {
         "C01" => Box::new(c01::C01::new()),
         "C02" => Box::new(c02::C02::new()),
